@@ -232,11 +232,18 @@ def run(F, rep, tier):
                 vs = variants_in(arm["b"])
                 for s in lits:
                     tab[s] = vs
-        # default: an `else` branch constructing a variant without a string pattern
+        # default (attribute absent): an `else` branch constructing a variant without a string pattern, or the `None` arm of a match on the optional attribute
         for i, _ in find_hir(h["body"], lambda x: x.get("k") == "If" and "else" in x):
             vs = variants_in(i["else"])
             if vs:
                 default = vs
+        for m, _ in find_hir(h["body"], lambda x: x.get("k") == "Match" and x.get("src") == "Normal"):
+            for arm in m["arms"]:
+                pc = hirflow.Flow.pat_ctors(arm["p"])
+                if any(isinstance(c, str) and c.endswith("Option::None") for c in pc) and not any(isinstance(c, tuple) and c[0] == "lit" for c in pc):
+                    vs = variants_in(arm["b"])
+                    if vs:
+                        default = vs
         return tab, default
 
     def variants_in(e):
